@@ -1,6 +1,7 @@
 import PgmVerif.Props.C02
 open PgmVerif
 #print axioms PgmVerif.C02_update_preserves_measure
+#print axioms PgmVerif.C02_calibrated_fixed_point
 #print axioms PgmVerif.C02_two_clique_exact
 #print axioms PgmVerif.C02_sepset_agreement_after_update
 #print axioms PgmVerif.C02_calibrated_tree_exact
